@@ -864,6 +864,23 @@ func (w *world) buildAdmin(n *simNode, op string) (Task, bool) {
 			return nil, false
 		}
 		return ChangeConfig(cfg), true
+	case "handover": // handover:<promote id>: every voter gets Demote, one non-voter gets Promote, in one request
+		id := arg(1)
+		nd, ok := cfg.Nodes[id]
+		if !ok || nd.Voter {
+			return nil, false
+		}
+		for vid, v := range cfg.Nodes {
+			if v.Voter {
+				if cfg.SetAction(vid, Demote) != nil {
+					return nil, false
+				}
+			}
+		}
+		if cfg.SetAction(id, Promote) != nil {
+			return nil, false
+		}
+		return ChangeConfig(cfg), true
 	case "demote2": // two actions in one request
 		a, b := arg(1), arg(2)
 		if _, ok := cfg.Nodes[a]; !ok {
